@@ -101,7 +101,7 @@ fn section(s: &Value) -> Value {
         }),
         "ubox" => g(|| {
             let mut u = mk_ubox(&s["box"]);
-            let mut tr = vec![];
+            let mut tr: Vec<Value> = vec![];
             for e in s["edits"].as_array().unwrap() {
                 match e[0].as_str().unwrap() {
                     "xc" => u.xc = f(&e[1]),
@@ -118,12 +118,14 @@ fn section(s: &Value) -> Value {
                         // documented contract of the setter: confidence must lie in [0, 1]
                         if (0.0..=1.0).contains(&c) {
                             u.set_confidence(c);
-                            tr.push("ok");
+                            tr.push(json!("ok"));
                         } else {
-                            tr.push("confidence-rejected");
+                            tr.push(json!("confidence-rejected"));
                         }
                     }
                 }
+                // the polygon reported after every edit is that of the box as it is now
+                tr.push(Value::Array(u.get_vertices().coords_iter().map(|c| json!([c.x, c.y])).collect()));
             }
             let ltwh = match BoundingBox::try_from(&u) {
                 Ok(b) => bbox_trace(&b),
